@@ -342,6 +342,11 @@ func vfC08(w *vfWorld) {
 			login(identities[t.Choice("c08.user", len(identities))])
 		}
 	}
+	if w.watch != nil {
+		for _, pn := range w.watch.Panics() {
+			w.violate("C08", "reload-panic", "", "the reload action of the e-mails file panicked: %s", pn)
+		}
+	}
 	w.distKey = fmt.Sprintf("%v/%v/%v/%v", cs.Domains, cs.Users, cs.Changes, cs.Groups)
 }
 
